@@ -79,6 +79,45 @@ Theorem multiclass_recall_weighted_total_refuted :
             is_err (fn_of mcrec_spec (Weighted, Some 3%nat) b) = true /\
             mcrec_textbook (Weighted, Some 3%nat) b = RS (Fin (z2q 1)).
 Proof. exact mcrec_weighted_total_refuted. Qed.
+Theorem multiclass_accuracy_eq_textbook : forall c b,
+  map snd (acc_samples c b) = snd b -> fn_of mcacc_spec c b = mcacc_textbook c b.
+Proof. exact mcacc_algo_eq_spec. Qed.
+Theorem multiclass_accuracy_valid_hypothesis : forall c b, acc_valid c b = true -> map snd (acc_samples c b) = snd b.
+Proof. exact acc_valid_targets. Qed.
+(* top-k correctness is "fewer than k scores strictly greater than the target's score" (ties favour the target) *)
+Theorem topk_mask_is_rank_rule : forall c b, acc_mask c b = map (fun s => (b2z (fst s), snd s)) (acc_samples c b).
+Proof. exact acc_mask_eq. Qed.
+Theorem binary_accuracy_eq_textbook : forall t b, bin_valid b = true -> fn_of binacc_spec t b = binacc_textbook t b.
+Proof. exact binacc_algo_eq_spec. Qed.
+Theorem binary_precision_eq_textbook : forall t b, bin_valid b = true -> fn_of binprec_spec t b = binprec_textbook t b.
+Proof. exact binprec_algo_eq_spec. Qed.
+Theorem binary_recall_eq_textbook : forall t b, bin_valid b = true -> fn_of binrec_spec t b = binrec_textbook t b.
+Proof. exact binrec_algo_eq_spec. Qed.
+Theorem binary_f1_eq_textbook : forall t b, bin_valid b = true -> fn_of binf1_spec t b = binf1_textbook t b.
+Proof. exact binf1_algo_eq_spec. Qed.
+(* confusion matrices, every normalisation (None / all / pred / true, incl. F.normalize's max(norm, eps)) *)
+Theorem confusion_matrix_normalisations_eq_textbook : forall n nm ps, labels_in n ps ->
+  cm_compute nm (map (map z2q) (coo_dense n ps)) = cm_textbook_ps n nm ps.
+Proof. exact cm_compute_spec. Qed.
+Theorem multiclass_confusion_matrix_eq_textbook : forall c b, cm_valid c b = true -> fn_of mccm_spec c b = mccm_textbook c b.
+Proof. exact mccm_algo_eq_spec. Qed.
+Theorem binary_confusion_matrix_eq_textbook : forall c b, bin_valid b = true -> fn_of bincm_spec c b = bincm_textbook c b.
+Proof. exact bincm_algo_eq_spec. Qed.
+(* multilabel / top-k multilabel: per sample, the tensor expressions are the documented set relations
+   (exact match P = T, overlap, contain T <= P, belong P <= T, hamming = number of agreeing labels).
+   PARTIAL: the lifting of these per-sample facts through the sum over samples and the final division is
+   not proved in Coq; it is covered by the exhaustive algo-vs-spec comparison of the check. *)
+Theorem multilabel_criteria_are_set_relations_partial : forall r, ok01 r ->
+  forallb (fun py => fst py =? snd py) r = ml_sample_ok ExactMatch (map to_bits r) /\
+  existsb (fun py => (fst py =? snd py) && (fst py =? 1)) r || forallb (fun py => (fst py =? 0) && (snd py =? 0)) r
+    = ml_sample_ok Overlap (map to_bits r) /\
+  forallb (fun py => 0 <=? fst py - snd py) r = ml_sample_ok Contain (map to_bits r) /\
+  forallb (fun py => fst py - snd py <=? 0) r = ml_sample_ok Belong (map to_bits r) /\
+  sumZ (map (fun py => b2z (fst py =? snd py)) r) = cnt (fun pt => Bool.eqb (fst pt) (snd pt)) (map to_bits r).
+Proof. exact ml_row_criteria. Qed.
+Theorem multilabel_overlap_summands_exclusive : forall r,
+  existsb (fun py : Z * Z => (fst py =? snd py) && (fst py =? 1)) r && forallb (fun py => (fst py =? 0) && (snd py =? 0)) r = false.
+Proof. exact ml_overlap_exclusive. Qed.
 (* validity implies the hypotheses used above *)
 Theorem valid_implies_aligned : forall nc b, mc_shape_ok nc b = true -> aligned b.
 Proof. exact shape_aligned. Qed.
@@ -119,6 +158,26 @@ Example accuracy_none_absent_class_is_nan :
   res_val (fn_of mcacc_spec (NoAvg, Some 3%nat, 1%nat) (Labels [0; 1], [0; 0])) = VL [VQ 1 2; xq_val NaN; xq_val NaN].
 Proof. vm_compute. reflexivity. Qed.
 
+(* tied top-2: the target's score is tied with the maximum -> rank 0 < 2 -> correct *)
+Example topk_tie_example :
+  res_val (fn_of mcacc_spec (Micro, None, 2%nat) (Logits [[1; 1; 1]; [2; 1; 0]], [2; 2])) = VQ 1 2 /\
+  acc_valid (Micro, None, 2%nat) (Logits [[1; 1; 1]; [2; 1; 0]], [2; 2]) = true.
+Proof. vm_compute. auto. Qed.
+(* confusion matrix with an empty predicted column: normalize="pred" gives 0 there, not NaN *)
+Example confusion_pred_empty_column_example :
+  res_val (fn_of mccm_spec (2%nat, NPred) (Labels [0; 0; 0], [0; 1; 1])) = VL [VL [VQ 1 3; VQ 0 1]; VL [VQ 2 3; VQ 0 1]] /\
+  cm_valid (2%nat, NPred) (Labels [0; 0; 0], [0; 1; 1]) = true.
+Proof. vm_compute. auto. Qed.
+(* scores exactly at the threshold are positive *)
+Example binary_at_threshold_example :
+  res_val (fn_of binprec_spec 2 ([2; 2; 1], [1; 0; 1])) = VQ 1 2 /\ res_val (fn_of binrec_spec 2 ([2; 2; 1], [1; 0; 1])) = VQ 1 2.
+Proof. vm_compute. auto. Qed.
+(* an admissible and an inadmissible top-k selection on a tied row *)
+Example topk_selection_admissible_example :
+  admissible 2 [1; 1; 1; 0] [2; 0] = true /\ admissible 2 [1; 1; 1; 0] [3; 0] = false /\
+  res_val (fn_of tkacc_spec (Contain, 2%nat) ([[1; 1; 1; 0]], [[1; 0; 1; 0]], [[2; 0]])) = VQ 1 1.
+Proof. vm_compute. auto. Qed.
+
 Print Assumptions threshold_is_geq.
 Print Assumptions score_at_threshold_is_positive.
 Print Assumptions argmax_is_first_maximal_index.
@@ -146,3 +205,15 @@ Print Assumptions precision_total.
 Print Assumptions f1_total.
 Print Assumptions confusion_matrix_total.
 Print Assumptions recall_total_partial.
+Print Assumptions multiclass_accuracy_eq_textbook.
+Print Assumptions multiclass_accuracy_valid_hypothesis.
+Print Assumptions topk_mask_is_rank_rule.
+Print Assumptions binary_accuracy_eq_textbook.
+Print Assumptions binary_precision_eq_textbook.
+Print Assumptions binary_recall_eq_textbook.
+Print Assumptions binary_f1_eq_textbook.
+Print Assumptions confusion_matrix_normalisations_eq_textbook.
+Print Assumptions multiclass_confusion_matrix_eq_textbook.
+Print Assumptions binary_confusion_matrix_eq_textbook.
+Print Assumptions multilabel_criteria_are_set_relations_partial.
+Print Assumptions multilabel_overlap_summands_exclusive.
